@@ -247,12 +247,19 @@ def _function_records(h):
 
 
 def load_known(prop):
-    p = os.path.join(VERIF, 'known_findings.json')
-    if not os.path.exists(p):
-        return []
-    with open(p) as f:
-        data = json.load(f)
-    return [e for e in data.get('findings', []) if e['property'] == prop]
+    out = []
+    paths = [os.path.join(VERIF, 'known_findings.json')]
+    d = os.path.join(VERIF, 'known_findings.d')
+    if os.path.isdir(d):
+        paths += [os.path.join(d, f) for f in sorted(os.listdir(d))
+                  if f.endswith('.json')]
+    for p in paths:
+        if not os.path.exists(p):
+            continue
+        with open(p) as f:
+            data = json.load(f)
+        out += [e for e in data.get('findings', []) if e['property'] == prop]
+    return out
 
 
 def run_check(prop, tier='quick', only=None, jobs=None):
